@@ -161,6 +161,85 @@ fn change_rt(c: &Change) -> J {
            "raw_ok":raw_ok,"comp_ok":comp_ok,"reenc_ok":reenc_ok,"hash_ok":hash_ok})
 }
 
+/// C18: a long history by 2-3 actors who keep exchanging changes (so their changes interleave in the
+/// graph), bundled as a whole and as random subsets; the bundle goes through its bytes.
+fn bundle_rt(i: usize, rng: &mut Rng) -> Vec<J> {
+    use automerge::transaction::Transactable;
+    let nact = 2 + (i % 2);
+    let rounds = 12 + rng.below(40);
+    let mut docs: Vec<automerge::AutoCommit> = (0..nact).map(|k| automerge::AutoCommit::new().with_actor(enc::actor_from_num(if i % 4 < 2 { k as u8 + 1 } else { 9 - k as u8 }))).collect();
+    let l = docs[0].put_object(automerge::ROOT, "l", automerge::ObjType::List).unwrap();
+    let t = docs[0].put_object(automerge::ROOT, "t", automerge::ObjType::Text).unwrap();
+    docs[0].commit();
+    for k in 1..nact {
+        let mut b = docs[0].clone();
+        docs[k].merge(&mut b).unwrap();
+    }
+    for r in 0..rounds {
+        for k in 0..nact {
+            let d = &mut docs[k];
+            match rng.below(5) {
+                0 => { let _ = d.put(automerge::ROOT, format!("k{}", rng.below(4)), r as i64); }
+                1 => { let n = d.length(&l); let _ = d.insert(&l, rng.below(n + 1), r as i64); }
+                2 => { let n = d.length(&l); if n > 0 { let _ = d.delete(&l, rng.below(n)); } else { let _ = d.insert(&l, 0, 0i64); } }
+                3 => { let n = d.length(&t); let _ = d.splice_text(&t, rng.below(n + 1), 0, "ab"); }
+                _ => { let _ = d.put(automerge::ROOT, "c", automerge::ScalarValue::counter(r as i64)); let _ = d.increment(automerge::ROOT, "c", 2); }
+            }
+            if rng.below(4) == 0 { let _ = d.put(automerge::ROOT, "z", r as i64); }
+            d.commit();
+        }
+        // exchange: everybody merges everybody with high probability
+        for k in 0..nact {
+            for j in 0..nact {
+                if j != k && rng.below(10) < 8 {
+                    let mut o = docs[j].clone();
+                    let _ = docs[k].merge(&mut o);
+                }
+            }
+        }
+    }
+    for k in 1..nact {
+        let mut o = docs[k].clone();
+        let _ = docs[0].merge(&mut o);
+    }
+    let full = docs[0].document().clone();
+    let all: Vec<Change> = full.get_changes(&[]).into_iter().collect();
+    let mut out = vec![];
+    for sub in 0..4 {
+        let chosen: Vec<Change> = match sub {
+            0 => all.clone(),
+            1 => all.iter().filter(|_| rng.below(10) < 7).cloned().collect(),
+            2 => { let cut = rng.below(all.len() + 1); all[..cut].to_vec() }
+            _ => { let cut = rng.below(all.len() + 1); all[cut..].to_vec() }
+        };
+        let e = catch_unwind(AssertUnwindSafe(|| {
+            let want: std::collections::BTreeSet<Vec<u8>> = chosen.iter().map(|c| c.raw_bytes().to_vec()).collect();
+            let b = match full.bundle(chosen.iter().map(|c| c.hash())) {
+                Ok(b) => b,
+                Err(e) => return json!({"ev":"bundlert","n":chosen.len(),"sub":sub,"res":format!("bundle:{:?}", e)}),
+            };
+            let mem_ok = b.to_changes().map(|cs| cs.iter().map(|c| c.raw_bytes().to_vec()).collect::<std::collections::BTreeSet<_>>() == want).unwrap_or(false);
+            let bytes = b.bytes().to_vec();
+            let bytes_ok = match automerge::Bundle::try_from(bytes.as_slice()) {
+                Ok(b2) => b2.to_changes().map(|cs| cs.iter().map(|c| c.raw_bytes().to_vec()).collect::<std::collections::BTreeSet<_>>() == want).unwrap_or(false),
+                Err(_) => false,
+            };
+            // loading the bundle acts like applying its changes
+            let mut viaload = Automerge::new().with_actor(enc::actor_from_num(90));
+            let mut viaapply = Automerge::new().with_actor(enc::actor_from_num(90));
+            let lr = viaload.load_incremental(&bytes).is_ok();
+            let ar = viaapply.apply_changes(chosen.iter().cloned()).is_ok();
+            let same = lr == ar && viaload.get_heads() == viaapply.get_heads()
+                && enc::hashes_sorted(&viaload.verif_queued_hashes()) == enc::hashes_sorted(&viaapply.verif_queued_hashes())
+                && viaload.save() == viaapply.save();
+            json!({"ev":"bundlert","n":chosen.len(),"sub":sub,"actors":nact,"res":"ok","mem_ok":mem_ok,"bytes_ok":bytes_ok,"load_ok":same})
+        }))
+        .unwrap_or_else(|p| json!({"ev":"bundlert","n":chosen.len(),"sub":sub,"res":world::panic_msg(p)}));
+        out.push(e);
+    }
+    out
+}
+
 fn roundtrip(args: &[String]) {
     let seed: u64 = args[2].parse().unwrap();
     let n: usize = args[3].parse().unwrap();
@@ -180,6 +259,10 @@ fn roundtrip(args: &[String]) {
         // C18: every change
         for c in w.known.values() {
             let e = catch_unwind(AssertUnwindSafe(|| change_rt(c))).unwrap_or_else(|p| json!({"ev":"chgrt","res":world::panic_msg(p)}));
+            emit(&mut out, e);
+        }
+        // C18: bundles of a long interleaved history through their bytes
+        for e in bundle_rt(i, &mut srng) {
             emit(&mut out, e);
         }
         // C19: identifiers of every replica
